@@ -1182,9 +1182,9 @@ def gen(rng, tier):
     cases += lattice_cases(rng, 2, 2, 2) if quick else lattice_cases(rng, 2, 3, 2) + lattice_cases(rng, 3, 2, 2)
     cases += selection_cases(rng, 3 if quick else 4)
     cases += ctor_cases(rng, 300 if quick else 5000)
-    for _ in range(300 if quick else 6000):
+    for _ in range(300 if quick else 5000):
         cases.append(built_case(rng, 'solve_t' if rng.random() < 0.65 else 'solve'))
-    n_rand = 2500 if quick else 80000
+    n_rand = 2500 if quick else 60000
     for _ in range(n_rand):
         r = rng.random()
         kind = 'solve_t' if r < 0.7 else 'twin' if r < 0.88 else 'solve'
